@@ -28,8 +28,10 @@ RegDWA == [t |-> "name", app |-> 0, code |-> 0, req |-> FALSE, name |-> "DWA", h
 \* the same handlers registered by index only (answer index and catch-all index included)
 RegCCRi == [t |-> "idx", app |-> 4, code |-> 272, req |-> TRUE, name |-> "", hid |-> 1]
 RegCCAi == [t |-> "idx", app |-> 4, code |-> 272, req |-> FALSE, name |-> "", hid |-> 2]
+\* the watchdog answer by index: {0, 280, answer} is not one of the reserved keys either
+RegDWAi == [t |-> "idx", app |-> 0, code |-> 280, req |-> FALSE, name |-> "", hid |-> 5]
 RegsOf(cfg) == CASE cfg \in {"all", "noaddr"} -> <<RegCCR, RegCCA, RegULR, RegDWA, RegALL>>
-                 [] cfg = "idx"    -> <<RegCCRi, RegCCAi, RegULR, RegALL>>
+                 [] cfg = "idx"    -> <<RegCCRi, RegCCAi, RegULR, RegDWAi, RegALL>>
                  [] cfg = "noall"  -> <<RegCCR, RegCCA, RegULR, RegDWA>>
                  [] cfg = "onlyall" -> <<RegALL>>
 \* handler ids of the override attempts ("CER","CEA","DWR" by name; base CER/CEA/DWR by index): must never fire
@@ -60,6 +62,8 @@ Quiet(s) == [s |-> s, fired |-> <<>>, wrote |-> <<>>, anydwa |-> FALSE]
 
 Step1(side, cfg, s, m) ==
   IF s.closed THEN Quiet(s)                                             \* nothing is read from a closed transport
+  \* (client) the peer of ANOTHER, established connection of the same Client repeats its CEA there: nothing happens here
+  ELSE IF m = "dup_other" THEN Quiet(s)
   ELSE IF IsApp(m) THEN
        IF ~s.hs THEN Quiet(s)                                           \* gated: no application handler before the handshake
        ELSE LET d == Dispatch(RegsOf(cfg), AppMsg(m).msg, AppMsg(m).short) IN
